@@ -505,5 +505,6 @@ func resetInterned() {
 	linTermOf = map[string]*Term{}
 	nonNilCache = map[string]bool{}
 	existsStore = map[string]*Formula{}
+	idxSumCache = map[*ssa.Function]*idxSum{}
 	memphiInfo = map[string]memphiSite{}
 }
